@@ -4,6 +4,7 @@ import (
 	"context"
 	"fmt"
 	"math/rand"
+	"sort"
 	"strings"
 	"sync"
 	"time"
@@ -87,13 +88,16 @@ st2 = make(struct { S struct { A []int64 } })
 // noPanicInWorker runs one source text in the worker child: parse + execute with Debug=false.
 // A panic of the calling goroutine is reported; a panic of a goroutine started by the script kills
 // the child, which the parent sees.
-func noPanicInWorker(src string) (answer string) {
+func noPanicInWorker(src string) (answer string) { return noPanicInWorkerFor(src, 250*time.Millisecond) }
+
+// noPanicInWorkerFor: the same with a chosen time allowance (goroutine scenarios need longer).
+func noPanicInWorkerFor(src string, allow time.Duration) (answer string) {
 	defer func() {
 		if p := recover(); p != nil {
 			answer = "panic " + fmt.Sprint(p)
 		}
 	}()
-	ctx, cancel := context.WithTimeout(context.Background(), 250*time.Millisecond)
+	ctx, cancel := context.WithTimeout(context.Background(), allow)
 	defer cancel()
 	done := make(chan string, 1)
 	go func() {
@@ -119,9 +123,22 @@ func noPanicInWorker(src string) (answer string) {
 		// leave goroutines started by the script a moment to fail
 		time.Sleep(2 * time.Millisecond)
 		return a
-	case <-time.After(1500 * time.Millisecond):
+	case <-time.After(allow + 1250*time.Millisecond):
 		return "stuck"
 	}
+}
+
+// goroutine scenarios: script goroutines that share only what the interpreter synchronises itself - variables of
+// enclosing scopes, modules, channels, type definitions - never one container. A fatal runtime error ("concurrent map
+// iteration and map write") cannot be recovered and kills the host.
+var concurrentScenarios = []string{
+	"module mm { x = 1\n func get() { return x } }\nn = 0\ndone = make(chan bool)\ngo func() {\nfor i = 0; i < 30000; i++ {\nn = n + 1\n}\ndone <- true\n}()\nfor i = 0; i < 3000; i++ {\ny = mm\n}\n<-done",
+	"module mm { x = 1 }\ndone = make(chan bool)\ngo func() {\nfor i = 0; i < 20000; i++ {\nvar fresh = i\nfresh2 = i\n}\ndone <- true\n}()\nfor i = 0; i < 3000; i++ {\nvar y = mm\n}\n<-done",
+	"module mm { x = 1 }\ndone = make(chan bool)\ngo func() {\nfor i = 0; i < 20000; i++ {\nmm.x = i\n}\ndone <- true\n}()\nfor i = 0; i < 3000; i++ {\ns = toString(mm)\n}\n<-done",
+	"done = make(chan bool)\ncnt = 0\nfor g = 0; g < 4; g++ {\ngo func() {\nfor i = 0; i < 5000; i++ {\ncnt = cnt + 1\n}\ndone <- true\n}()\n}\nfor g = 0; g < 4; g++ {\n<-done\n}",
+	"done = make(chan bool)\nfor g = 0; g < 4; g++ {\ngo func(g) {\nfor i = 0; i < 300; i++ {\nmake(type T1, i)\nv = make(T1)\n}\ndone <- true\n}(g)\n}\nfor g = 0; g < 4; g++ {\n<-done\n}",
+	"done = make(chan bool)\nfunc work(k) {\nvar acc = 0\nfor i = 0; i < 3000; i++ {\nacc += i\n}\ndone <- true\n}\nfor g = 0; g < 6; g++ {\ngo work(g)\n}\nfor g = 0; g < 6; g++ {\n<-done\n}",
+	"module cfg { level = 1 }\ndone = make(chan bool)\ngo func() {\nfor i = 0; i < 10000; i++ {\ncfg.level = i\nglobalv = i\n}\ndone <- true\n}()\nfor i = 0; i < 2000; i++ {\nc2 = cfg\nc2.level = -1\n}\n<-done",
 }
 
 // degenerate forms: each is a family the grammar accepts (or nearly) with an empty / odd part
@@ -260,6 +277,34 @@ func streamNoPanic(o *Out, r *rand.Rand, n int, thorough bool) {
 	}
 	close(jobs)
 	wg.Wait()
+	// goroutine scenarios, one child each, a few repetitions (the faults are schedule-dependent)
+	reps := 3
+	if thorough {
+		reps = 12
+	}
+	for _, src := range concurrentScenarios {
+		for rep := 0; rep < reps; rep++ {
+			sl := &wslot{}
+			ans := sl.run(workReq{Kind: "nopanic-conc", Src: src}, 12*time.Second)
+			sl.stop()
+			o.Sum.Evaluations++
+			o.Sum.Hist["src:goroutine-scenario"]++
+			cls := strings.Fields(ans + " x")[0]
+			o.Sum.Hist["outcome:"+cls]++
+			if cls == "ok" || cls == "err" {
+				continue
+			}
+			if cls == "crashed" && (strings.Contains(ans, "out of memory") || strings.Contains(ans, "cannot allocate")) {
+				continue
+			}
+			if cls == "stuck" || cls == "timeout" {
+				o.Sum.Hist["outcome:scenario-did-not-finish"]++
+				continue // not returning is C02's / C13's business
+			}
+			o.Fail(Failure{Oracle: "host-survives", Key: "host-" + cls + ":goroutines:" + firstWords(ans, 8), Input: src, Detail: "child process: " + ans})
+			break
+		}
+	}
 	stopWorker()
 	mergeHist(o.Sum.Hist, prefixHist("syn:", syn.Hist))
 }
@@ -299,6 +344,26 @@ func noPanicSweep(o *Out) {
 		srcs = append(srcs, "p1, p2 = "+l, "var p1, p2 = "+l, "p1, p2, p3 = "+l, "p1, p2 = "+l+", "+l, "-("+l+")", "!("+l+")", "^("+l+")", "zz = "+l+"\nzz++", "zz = "+l+"\nzz--",
 			"len("+l+")", "make([]int64, "+l+")", "make(chan int64, "+l+")", "toString("+l+")", "toInt("+l+")", "toFloat("+l+")", "toBool("+l+")", "keys("+l+")", "range("+l+")",
 			"for q in "+l+" { break }", "delete("+l+", 1)", "cch <- "+l, "cch <- <- cch", "<- "+l, "zz, zo = <- "+l, "close("+l+")", "throw "+l, "return "+l, "sum("+l+"...)", "g(1, "+l+"...)", "func(p...) { return p }("+l+"...)", "*("+l+")", "zz = "+l+"\n&zz")
+	}
+	// every type the bundled packages offer, through every way a script can make a value of it
+	var pkgs []string
+	for pkg := range env.PackageTypes {
+		pkgs = append(pkgs, pkg)
+	}
+	sort.Strings(pkgs)
+	for _, pkg := range pkgs {
+		var names []string
+		for name := range env.PackageTypes[pkg] {
+			names = append(names, name)
+		}
+		sort.Strings(names)
+		for _, name := range names {
+			pre := "pk = import(\"" + pkg + "\")\n"
+			for _, form := range []string{"zz = make(pk.%s)\ntypeOf(zz)", "zz = make([]pk.%s, 2)\nzz[0]", "zz = new(pk.%s)\n*zz", "zz = make(chan pk.%s, 1)\nlen(zz)",
+				"zz = make(map[string]pk.%s)\nzz[\"k\"]", "zz = make(pk.%s)\nzz == zz", "zz = make(pk.%s)\ntoString(zz)", "zz = make(*pk.%s)\nzz", "zz = make(struct { F pk.%s })\nzz.F"} {
+				srcs = append(srcs, pre+fmt.Sprintf(form, name))
+			}
+		}
 	}
 	e := richEnv()
 	hasBig := func(src string) bool {
